@@ -13,7 +13,7 @@ RULE = ("seeded random FloScript programs (1-2 active framers, an optional plain
         "inline and partial-inline spellings, raw ioinit paths of `do .. per` and of `do .. for` (path text pre-loaded by `init`), `do .. from`, `do .. via`); literal path segments reuse "
         "the program's framer/frame/actor/tag names and the words me/main/framer/frame/actor; each program is built with the real "
         "Builder, run for a few ticks, and then re-built once per framer, frame, named actor and clone tag with that one name replaced "
-        "by a fresh token; distinct = distinct (program text, renamed entity); non-trivial = the program built and at least one reference "
+        "by a fresh token; actions placed in every context (recur, exit, rexit, renter, precur); clones reared at run time by another frame than the one they are reared into, under every single renaming; distinct = distinct (program text, renamed entity); non-trivial = the program built and at least one reference "
         "site's path is expected to follow the renaming")
 META = {"engine": "A floscript (build, resolve, short run)",
         "technique": "metamorphic runtime check: resolved share paths of tagged reference sites before/after each single renaming",
